@@ -444,9 +444,9 @@ func clClassifyBody(root *pkgSrc, fd *ast.FuncDecl, v string, from token.Pos, is
 }
 
 type clSelect struct {
-	client, fn                            string
+	client, fn                           string
 	ctx, tctx, recv, recvOk, timer, dflt bool
-	line                                  int
+	line                                 int
 }
 
 func clSelects(root *pkgSrc, fs []clFunc) []clSelect {
